@@ -248,6 +248,23 @@ def gen_c15_hull(rnd, tier):
         k = rnd.randrange(len(v))
         v = v[k:] + v[:k]
         out.append({'m': 'spatial', 'op': 'hull', 'pts': v, 'simple': True, 'fc': True, 'sc': rnd.choice((0, 4, -3, -20))})
+    # kites: seen from one end of the diameter the distances to the other hull vertices dip before they reach the far end
+    # (no single peak), in all eight orientations, every start vertex and both windings, with and without interior points
+    kite = [(0, 0), (40, -15), (42, 0), (40, 20)]
+    for k in range(8):
+        def tr(p):
+            x, y = p
+            if k & 1: x = -x
+            if k & 2: y = -y
+            if k & 4: x, y = y, x
+            return [x + 50, y + 50, 0]
+        base = [tr(p) for p in kite]
+        for sh in range(4):
+            v = base[sh:] + base[:sh]
+            if (k + sh) % 2:
+                v = v[::-1]
+            extra = [[50 + (1 if not (k & 4) else 0) * (-1 if k & 1 else 1) * 20, 50 + (1 if k & 4 else 0) * (-1 if k & 2 else 1) * 20, 0]] if sh % 2 else []
+            out.append({'m': 'spatial', 'op': 'hull', 'pts': v + extra, 'simple': not extra, 'fc': True, 'sc': rnd.choice((0, -3, 4))})
     return out
 
 
